@@ -40,6 +40,31 @@ func (quiet) Panicf(format string, v ...any) { panic(fmt.Sprintf(format, v...)) 
 func (quiet) Fatal(v ...any)                 { panic("FATAL: " + fmt.Sprint(v...)) }
 func (quiet) Fatalf(format string, v ...any) { panic("FATAL: " + fmt.Sprintf(format, v...)) }
 
+// RecLogger records error-level lines. Appends are guarded by a mutex (the container logs from several goroutines
+// at once); UnsyncLen reads WITHOUT the mutex, which is only race free when everything the container logged
+// happened-before the reader - e.g. after a call that is documented to wait for the goroutines it started.
+type RecLogger struct {
+	quiet
+	mu    sync.Mutex
+	lines []string
+}
+
+func (r *RecLogger) Level(syslog.Lv) syslog.Logger { return r }
+func (r *RecLogger) Pref(any) syslog.Logger        { return r }
+func (r *RecLogger) Error(v ...any)                { r.add(fmt.Sprint(v...)) }
+func (r *RecLogger) Errorf(f string, v ...any)     { r.add(fmt.Sprintf(f, v...)) }
+func (r *RecLogger) add(s string) {
+	r.mu.Lock()
+	r.lines = append(r.lines, s)
+	r.mu.Unlock()
+}
+
+// UnsyncLen deliberately reads without synchronisation (see RecLogger).
+func (r *RecLogger) UnsyncLen() int { return len(r.lines) }
+
+// Rec0 is the process-wide recording logger, installed by Main when VERIF_REC_LOGGER=1.
+var Rec0 *RecLogger
+
 // Silence installs the discard logger. Must run before the first syslog.Pref
 // call because the prefix cache freezes whatever logger was current.
 func Silence() { syslog.SetLogger(quiet{}) }
@@ -153,7 +178,10 @@ func (r *Recorder) flush() {
 
 // Main is the TestMain body of every property package.
 func Main(m *testing.M) {
-	if os.Getenv("VERIF_REAL_LOGGER") == "1" {
+	if os.Getenv("VERIF_REC_LOGGER") == "1" {
+		Rec0 = &RecLogger{}
+		syslog.SetLogger(Rec0)
+	} else if os.Getenv("VERIF_REAL_LOGGER") == "1" {
 		// keep the library's own logger (its code is part of what the race detector watches), errors only
 		syslog.Level(syslog.LvError)
 	} else {
